@@ -1,1 +1,118 @@
-//! placeholder (filled in by the C14 work)
+//! SimRayon — a deterministic, tape-driven stand-in for the subset of rayon 1.x that
+//! winterfell uses. Package name `rayon`, placed in the graph with `[patch.crates-io]`.
+//!
+//! Everything runs on the calling OS thread; *the simulator decides who runs*:
+//!  * `current_num_threads()` returns the simulated pool size chosen for the run;
+//!  * an indexed parallel iterator is cut into leaf ranges (number and position of the cuts
+//!    from the tape, respecting `with_min_len`) and the leaves run in a taped order; inside a
+//!    leaf items run in index order, as rayon's sequential fold does;
+//!  * `scope`: every `spawn` is, by a taped coin, run to completion at the spawn point or
+//!    queued; queued tasks run after the scope body in a taped order (nested spawns recurse);
+//!  * `find_any` over a `Range<u64>`: the range is cut into sub-ranges scanned round-robin in a
+//!    taped interleaving; the first hit in that interleaving is returned.
+//! Every such execution is one that real rayon may produce, so the shim cannot report a
+//! behaviour that rayon forbids. Granularity is the task: a task body is not pre-empted.
+
+#![allow(clippy::len_without_is_empty)]
+
+pub mod iter;
+pub mod sim;
+
+pub mod prelude {
+    pub use crate::iter::{
+        FromParallelIterator, IndexedParallelIterator, IntoParallelIterator, IntoParallelRefIterator,
+        IntoParallelRefMutIterator, ParallelIterator, ParallelSlice, ParallelSliceMut,
+    };
+}
+
+pub mod vec {
+    pub use crate::iter::VecIntoIter as IntoIter;
+}
+
+pub mod slice {
+    pub use crate::iter::{Chunks, ChunksMut, SliceIter as Iter, SliceIterMut as IterMut};
+}
+
+pub mod range {
+    pub use crate::iter::RangeU64 as Iter;
+}
+
+use std::cell::RefCell;
+use std::marker::PhantomData;
+
+/// The simulated pool size (1 when no simulation is installed on this thread).
+pub fn current_num_threads() -> usize {
+    sim::pool_size()
+}
+
+type Task<'scope> = Box<dyn FnOnce(&Scope<'scope>) + Send + 'scope>;
+
+pub struct Scope<'scope> {
+    queue: RefCell<Vec<Task<'scope>>>,
+    marker: PhantomData<Box<dyn FnOnce(&Scope<'scope>) + Send + Sync + 'scope>>,
+}
+
+impl<'scope> Scope<'scope> {
+    pub fn spawn<BODY>(&self, body: BODY)
+    where
+        BODY: FnOnce(&Scope<'scope>) + Send + 'scope,
+    {
+        sim::note_task();
+        // taped coin: run now (stolen at once and finished before the spawner proceeds) or queue
+        if sim::pick("scope.spawn.defer?", 2) == 0 {
+            body(self);
+        } else {
+            sim::note_reorder();
+            self.queue.borrow_mut().push(Box::new(body));
+        }
+    }
+
+    fn drain(&self) {
+        loop {
+            let task = {
+                let mut q = self.queue.borrow_mut();
+                if q.is_empty() {
+                    break;
+                }
+                let n = q.len();
+                // 0 = the most recently queued task (LIFO, what the spawning worker itself pops)
+                let k = sim::pick("scope.next", n as u64) as usize;
+                if k != n - 1 {
+                    sim::note_reorder();
+                }
+                q.remove(n - 1 - k)
+            };
+            task(self);
+        }
+    }
+}
+
+pub fn scope<'scope, OP, R>(op: OP) -> R
+where
+    OP: FnOnce(&Scope<'scope>) -> R + Send,
+    R: Send,
+{
+    let s = Scope { queue: RefCell::new(Vec::new()), marker: PhantomData };
+    let r = op(&s);
+    s.drain();
+    r
+}
+
+pub fn join<A, B, RA, RB>(a: A, b: B) -> (RA, RB)
+where
+    A: FnOnce() -> RA + Send,
+    B: FnOnce() -> RB + Send,
+    RA: Send,
+    RB: Send,
+{
+    if sim::pick("join.order", 2) == 0 {
+        let ra = a();
+        let rb = b();
+        (ra, rb)
+    } else {
+        sim::note_reorder();
+        let rb = b();
+        let ra = a();
+        (ra, rb)
+    }
+}
